@@ -130,6 +130,7 @@ ClOne == { <<"C","o","n","t","e","n","t","-","L","e","n","g","t","h">> }
 ClTwo == ClOne \cup { <<"c","o","n","t","e","n","t","-","l","e","n","g","t","h">> }
 \* ... CONTENT-length, cONTENT-lENGTH
 ClThree == ClTwo \cup { <<"C","O","N","T","E","N","T","-","l","e","n","g","t","h">> }
+ClLower == { <<"c","O","N","T","E","N","T","-","l","E","N","G","T","H">> }      \* quick sweep A: only the odd spelling (sweep B has the usual one)
 ClMixed == ClOne \cup { <<"c","O","N","T","E","N","T","-","l","E","N","G","T","H">> }
 
 (* Scale family (repetition): n fields drawn from a pool of k names, so every name occurs about n/k times
@@ -144,8 +145,8 @@ ScaleName(i, k) == LET nm == Pool[((i * 7) % k) + 1]
 ScaleHeaders(n, k) == [ i \in 1..n |-> Plain(ScaleName(i, k), IF i % 4 = 0 THEN <<>> ELSE <<SP>>, Dec(i) \o <<"-">> \o Dec(((i * 7) % k) + 1)) ]
 ScaleN == {19, 20, 21, 22, 31, 32, 33, 34, 64, 100}
 ScaleK == {3, 11}
-InitScale ==
-  /\ \E n \in ScaleN, k \in ScaleK, bd \in Bodies :
+InitScaleWith(bodies) ==
+  /\ \E n \in ScaleN, k \in ScaleK, bd \in bodies :
         LET sl == SL(2, 3, 1)
         IN req = [method |-> sl.method, path |-> sl.path, hasq |-> sl.hasq, query |-> sl.query, version |-> sl.version,
                   headers |-> ScaleHeaders(n, k), hasBody |-> bd.hasBody, body |-> bd.body]
@@ -154,6 +155,10 @@ InitScale ==
   /\ pc = "build"
   /\ pos = 0 /\ cons = 0 /\ line = <<>> /\ acc = EmptyAcc /\ need = 0
   /\ out = <<>> /\ res2 = Bad
+\* sweep A starts from the catalogue requests and from the scale family (whose field lists are already complete:
+\* MaxH = 1 leaves them only Build_Finish)
+InitAQ == Init \/ InitScaleWith(BodiesScaleQ)
+InitAT == Init \/ InitScaleWith(BodiesScale)
 
 (* Generation (method A): one JSON line per built request - the bytes, the peer and the abstract
    request the specification expects (Norm; equal to Denote of the bytes by Lemma_DenoteRender,
